@@ -160,7 +160,7 @@ func Execute(spec RunSpec) (res *Result, reusable bool) {
 		fmt.Fprintf(&sb, "%s=%d|", k, res.Counts[k])
 	}
 	res.LogHash = sim.HashString(sb.String())
-	return res, s.Abnormal == "" && !schedPanic
+	return res, s.Abnormal == "" && !schedPanic && !s.Uncontrolled
 }
 
 func kindName(k uint8) string {
